@@ -479,6 +479,69 @@ fn reset_case(sm: &mut Box<Sim>, k: &Rc<NetKern>, slot: u64) -> Out {
     Out { sample: json!({"kind": "answer then close with the request unread (unix)", "answer_bytes": reply_len, "request_bytes": request_len, "read_buffer": read_buf, "strategy": format!("{:?}", sm.strategy)}), nontrivial: true }
 }
 
+/// A burst of connections on one unix listener before any of them is accepted, then all accepted
+/// in order ("every order of connect/accept": all the connects first).
+fn burst_case(sm: &mut Box<Sim>, slot: u64) -> Out {
+    let d = &mut sm.dec;
+    let n = *d.pick(K::Arg, &[2usize, 17, 130, 140, 260]);
+    // the listen backlog is capped by the system: stay well below it
+    let somaxconn: usize = std::fs::read_to_string("/proc/sys/net/core/somaxconn").ok().and_then(|s| s.trim().parse().ok()).unwrap_or(128);
+    let n = n.min(somaxconn / 2).max(1);
+    let path = format!("/verif/work/c16.{}.{}.bsock", unsafe { libc::getpid() }, slot % 4);
+    let _ = std::fs::remove_file(&path);
+    let upath = UnixString::try_from_string(path.clone()).unwrap();
+    let kdummy = NetKern { short_p: Cell::new(0), eintr_left: Cell::new(0), n_short: Cell::new(0), n_eintr: Cell::new(0), n_ppoll_parked: Cell::new(0), n_ppoll_timeout: Cell::new(0) };
+    sm.set_kernel(&kdummy);
+    let mut viol: Option<Violation> = None;
+    sched::with_installed(sm, || {
+        let mut l = match UnixListener::bind(&upath) {
+            Ok(l) => l,
+            Err(e) => {
+                viol = Some(Violation { sig: "harness|bind".into(), detail: format!("{e:?}") });
+                return;
+            }
+        };
+        let mut clients = Vec::with_capacity(n);
+        for i in 0..n {
+            match UnixStream::connect(&upath) {
+                Ok(mut c) => {
+                    if let Err(e) = c.write_all(&(i as u32).to_le_bytes()) {
+                        viol = Some(Violation { sig: "stream|write-error".into(), detail: format!("client {i}: {e:?}") });
+                        return;
+                    }
+                    clients.push(c);
+                }
+                Err(e) => {
+                    viol = Some(Violation { sig: "connect|error".into(), detail: format!("blocking connect number {i} of a burst of {n} failed although the listener's queue has room ({somaxconn} allowed by the system): {e:?}") });
+                    return;
+                }
+            }
+        }
+        for i in 0..n {
+            let mut st = match l.accept() {
+                Ok(s) => s,
+                Err(e) => {
+                    viol = Some(Violation { sig: "accept|error".into(), detail: format!("accept number {i} of {n} pending connections failed: {e:?}") });
+                    return;
+                }
+            };
+            let mut b = [0u8; 4];
+            match st.read(&mut b) {
+                Ok(4) if u32::from_le_bytes(b) as usize == i => {}
+                other => {
+                    viol = Some(Violation { sig: "accept|order".into(), detail: format!("accepted connection {i} delivered {other:?} / id {}", u32::from_le_bytes(b)) });
+                    return;
+                }
+            }
+        }
+    });
+    let _ = std::fs::remove_file(&path);
+    if let Some(v) = viol {
+        sm.violate(v.sig, v.detail);
+    }
+    Out { sample: json!({"kind": "burst of unix connections before the first accept", "connections": n}), nontrivial: n >= 100 }
+}
+
 fn timeout_case(sm: &mut Box<Sim>, k: &Rc<NetKern>, slot: u64) -> Out {
     let d = &mut sm.dec;
     let limit_us = *d.pick(K::Arg, &[1u64, 100, 1_000, 15_000, 1_000_000, 10_000_000]);
@@ -984,6 +1047,7 @@ impl Check for C16 {
             0 => stream_case(&mut sim, &k, false, case, long),
             1 => stream_case(&mut sim, &k, true, case, long),
             2 if (hk >> 16) % 4 == 0 => reset_case(&mut sim, &k, case),
+            2 if (hk >> 16) % 16 == 1 => burst_case(&mut sim, case),
             2 => timeout_case(&mut sim, &k, case),
             _ => scm_case(&mut sim, case),
         };
